@@ -582,11 +582,28 @@ class Interp:
                             return fin([spec.freeze(H)], ("opt", "None", None))
                         if H[ov] is not None and H[fv] is not None:
                             return fin([spec.freeze(H)], ("opt", "Some", H[fv]))
+        # ---- the content of a collection that was moved out of a tracked one (`for item in std::mem::take(&mut self.cache)`): the local holds
+        # what the tracked collection held; iterating it yields nothing when that was empty
+        if isinstance(v0, tuple) and v0 and v0[0] == "coll":
+            m_ = cp.split("::")[-1]
+            if m_ in ("into_iter", "rev", "iter", "iter_mut", "drain", "by_ref", "enumerate", "peekable", "deref", "deref_mut"):
+                return fin([spec.freeze(H)], v0)
+            if m_ in ("next", "next_back", "pop", "pop_front", "pop_back", "first", "last", "peek") and v0[1] == "empty":
+                return fin([spec.freeze(H)], "None")
+            if m_ in ("is_empty",) and v0[1] == "empty":
+                return fin([spec.freeze(H)], True)
+            if m_ in ("next", "next_back", "pop", "pop_front", "pop_back", "first", "last", "peek", "len", "is_empty"):
+                return fin([spec.freeze(H)])
         # ---- tracked collections (kind 'vec'): clear / grow / pop ---------------------------------
         if t.args:
             pv = spec.var_of(canon_path(x.operand(t.args[0]), al))
             if pv is not None and spec.vars[pv]["kind"] == "vec":
                 m = cp.split("::")[-1]
+                if re.search(r"mem::take$", cp) or (re.search(r"mem::replace$", cp) and len(t.args) == 2 and
+                                                    re.search(r"::(new|default|with_capacity)\(", show(x.operand(t.args[1]), 80))):
+                    was = H[pv]
+                    H[pv] = "empty"
+                    return fin([spec.freeze(H)], ("coll", was))
                 if m == "clear":
                     H[pv] = "empty"
                     return fin([spec.freeze(H)])
@@ -594,7 +611,10 @@ class Interp:
                     if H[pv] == "empty":
                         return fin([spec.freeze(H)], "None")
                     return fin([spec.freeze(H)])
-                if m in ("len", "is_empty", "iter", "capacity"):
+                if m in ("len", "is_empty", "iter", "capacity", "iter_mut", "deref", "deref_mut", "as_slice", "as_mut_slice", "reverse", "sort", "sort_by",
+                         "sort_by_key", "sort_unstable", "sort_unstable_by", "sort_unstable_by_key", "swap", "rotate_left", "rotate_right", "contains",
+                         "reserve", "shrink_to_fit", "make_contiguous"):
+                    # neither empties nor fills the collection (`self.cache.reverse()` reaches the slice through deref_mut)
                     return fin([spec.freeze(H)])
                 H[pv] = None
                 return fin([spec.freeze(H)])
